@@ -73,6 +73,11 @@ def run(ctx):
     # warmers' background collection never names a generation dead while the thread holds a searcher of it
     vlib.mc_check(ctx, "WarmProto", "WarmProto.cfg", timeout=300, workers=2)
     vlib.mc_check(ctx, "WarmProto", "WarmProto_neg.cfg", expect_violation="NeverDiscardHeld", timeout=120, workers=2)
+    # up to 16 generations, 3 users: IndInv with the three invariants is inductive (Apalache); with the collection split it is not
+    ok_warm = vlib.apalache_inductive(ctx, "WarmProtoInd", ["WarmProto.tla", "WarmProtoInd.tla"], "ConstInit", "IndAll")
+    if ok_warm is False:
+        ctx.violation("WarmProto: IndInv is not inductive (Apalache)", [], "")
+    vlib.apalache_inductive(ctx, "WarmProtoIndNeg", ["WarmProto.tla", "WarmProtoIndNeg.tla"], "ConstInit", "IndAll", expect_fail=True)
     wruns = []
     for r in vlib.split_runs(ev):
         out = []
